@@ -194,6 +194,9 @@ def check(ck: Checker) -> None:
 
     # ------------------------------------------------------------------ new
     _check_compare_status(ck)
+    from .generic_lints import run_all as _lints
+
+    _lints(ck, "C11.aliasing", "hashfile.transfer")
     from . import round4 as _r4
 
     _r4.index_memo_reset(ck, "C11.new")
